@@ -760,7 +760,10 @@ impl Store {
                 (Some(ValueEntry::Cas(_, _)), ValueEntry::Plain(_)) => {
                     return Err(StoreError::Cas);
                 }
-                (Some(ValueEntry::Cas(_, v_curr)), ValueEntry::Cas(_, v)) if v_curr != v => {
+                (Some(ValueEntry::Cas(_, v_curr)), ValueEntry::Cas(_, v))
+                    if v_curr != v || *v == CasVersion::MAX =>
+                {
+                    // a mismatch, or the version counter is exhausted and cannot be raised any more
                     return Err(StoreError::CasVersionMismatch);
                 }
                 _ => {}
